@@ -38,9 +38,9 @@
     * normSet_eq_delivSet: `sem` normalises sets with its own interval normal form `normSet` (bounds ordered, `*` =
       2^32, sorted by lower bound, overlapping / adjacent intervals merged); for a literal set `normSet rs = delivSet rs`
       under the decidable side condition `TopOK rs` (some range is `n:*`, or none is the lone `*`, or no bound is
-      4294967295).  The condition is needed: next to a lone `*` the parser keeps `n:4294967295,*` where the interval
-      normal form writes `n:*` (normSet_top_counterexample; same members — the oracle compares both through `normSet` on
-      every run).  Consequences: literal_set_sem (`delivN s = canonNSet s`), canonical_set_nf (`SetNF` follows from
+      4294967295).  The condition is exact (normSet_eq_delivSet_iff): next to a lone `*` the parser keeps
+      `n:4294967295,*` where the interval normal form writes `n:*` (normSet_top_counterexample; same members — the
+      oracle compares both through `normSet` on every run).  Consequences: literal_set_sem (`delivN s = canonNSet s`), canonical_set_nf (`SetNF` follows from
       `SetOK` + `SetTop`), and the literal theorems stated with `sem` directly:
       cmd_fidelity_{copy,move,move_emulated,store,uid_expunge}_literal_sem, cmd_delivers_fetch_literal_sem
       (SEARCH with literal sets stays stated with `delivCrit`).
@@ -450,6 +450,10 @@ theorem cmd_delivers_search_literal (cfg : Cfg) (tag : Nat) (uid : Bool) (c : Cr
 /-- the interval normal form of the caller's ranges equals the set `ParseSet` builds from their printed form -/
 theorem normSet_eq_delivSet (rs : NumSet.Set) (h : LitOK rs) (ht : TopOK rs = true) : normSet rs = delivSet rs :=
   normSet_eq_delivSet_of rs h ht
+
+/-- the side condition is exact: the two normal forms of a literal set agree iff `TopOK` holds -/
+theorem normSet_eq_delivSet_iff (rs : NumSet.Set) (h : LitOK rs) : normSet rs = delivSet rs ↔ TopOK rs = true :=
+  ⟨topOK_of_eq rs h, normSet_eq_delivSet_of rs h⟩
 
 /-- the side condition holds for an unsorted, overlapping, reversed set with a lone `*`, an `n:*` and a bound 2^32-1 -/
 example : LitOK [⟨5, 3⟩, ⟨0, 0⟩, ⟨1, 4⟩, ⟨9, 0⟩, ⟨7, 7⟩, ⟨4294967295, 12⟩] ∧
